@@ -22,3 +22,38 @@ def _cpow_within_11(inp):
     final outward rounding at prec bits has nothing to round, e.g. (1 + 2^-51)^64 at 53 bits: exp(2^-45 + ...) -> 1 + 2^-45"""
     k = inp.get("excess_log2_ulp")
     return _is_cpow(inp) and inp.get("class") == "contain" and isinstance(k, int) and k <= -11
+
+
+def _q(s):
+    from fractions import Fraction
+    m, _, e = str(s).partition("*2^")
+    return Fraction(int(m)) * Fraction(2) ** int(e or 0)
+
+
+@predicate("civ4_cpow_small_component_normwise_within_2^-20_ulp")
+def _cpow_small_component(inp):
+    """mpci_pow = mpci_exp(y * mpci_log(x)): the angle y*arg(x) comes from mpi_atan2 at prec+20 bits, whose endpoints can be on
+    the wrong side by up to 2^-3 ulp (IV5), i.e. the angle is off by up to ~2^-(prec+22)|y arg x|.  For the component of the result
+    that nearly vanishes (cos or sin of the angle near a zero: Re of (-2 - i eps)^(-1/2), ...) this is many ulps OF THAT COMPONENT
+    although it is below 2^-20 ulp of the modulus.  Matches: the failing component is at least 2^10 times smaller than the other
+    one and the miss is at most 2^-(prec+20) times the modulus."""
+    if not (_is_cpow(inp) and inp.get("class") == "contain"):
+        return False
+    try:
+        comp = int(inp.get("component"))
+        res = [[_q(a), _q(b)] for a, b in inp["result"]]
+        enc = [[_q(a), _q(b)] for a, b in inp["verified_enclosure"]]
+        p = int(inp["prec"])
+    except Exception:  # noqa
+        return False
+    if comp not in (0, 1) or len(res) != 2 or len(enc) != 2:
+        return False
+    lo, hi = res[comp]
+    elo, ehi = enc[comp]
+    gap = max(elo - hi, lo - ehi)                 # distance between the returned interval and the exact value's enclosure
+    if gap <= 0:
+        return False
+    other = max(abs(enc[1 - comp][0]), abs(enc[1 - comp][1]))
+    mine = max(abs(elo), abs(ehi))
+    from fractions import Fraction
+    return other > 0 and mine * 1024 <= other and gap <= other * Fraction(2) ** (-(p + 20))
